@@ -6,6 +6,7 @@ package main
 import (
 	"fmt"
 	"go/types"
+	"os"
 	"strings"
 )
 
@@ -342,7 +343,12 @@ func registerIntrinsics(M map[string]Model) {
 				v = m.fresh("h", 8)
 				kind = "u8"
 			}
-			m.nondets = append(m.nondets, nondetRec{name: fmt.Sprintf("%s+%d", name, i), kind: kind, t: v})
+			if m.fixed != nil {
+				// concrete mode: the same pseudo-random / recorded stream the native harness consumes
+				v = m.ctx.Const(m.nextFixed(name, kind), 8*k)
+			} else {
+				m.nondets = append(m.nondets, nondetRec{name: fmt.Sprintf("%s+%d", name, i), kind: kind, t: v})
+			}
 			m.storeBits(m.addOff(p, int64(i)), v, k)
 			i += k
 		}
@@ -433,12 +439,17 @@ func splitmix(x uint64) uint64 {
 // nextFixed: concrete mode. With a recorded list the values are replayed in
 // order; with a seed they are a fixed pseudo-random function of the call index
 // (the native vrt package computes the same function).
+var ndTrace = os.Getenv("VERIF_ND_TRACE") != ""
+
 func (m *Machine) nextFixed(name, kind string) uint64 {
 	if m.fixedSeed != 0 {
 		v := splitmix(m.fixedSeed + uint64(m.fixedPos)*0x100000001b3)
 		m.fixedPos++
 		if v%4 == 0 {
 			v = v >> 8 % 3 // bias towards small values
+		}
+		if ndTrace {
+			fmt.Fprintf(os.Stderr, "VERIF-ND: %d %s %s\n", m.fixedPos-1, kind, name)
 		}
 		return v
 	}
